@@ -44,6 +44,11 @@ func makeWorkspace(c *core.Ctx, name string, nproj int, salt int64) *workspace {
 		r := rngFor(c, salt+int64(i))
 		o := gen.Opts{Years: 1, MinLayers: 4, MaxLayers: 10, Crops: []string{"SM", "SOY", "OA"}, Schedules: i%2 == 0, Measure: i%2 == 1, ETMethods: []int{2, 3},
 			GWFrom: []string{[]string{"soilfile", "polygonfile", "gwTimeSeries"}[i%3]}, ShallowGW: i%2 == 0, HeavyRain: i%2 == 1}
+		if i%2 == 1 {
+			// starts in a leap year: its last day (the 366th) lies inside the simulated period
+			ly := 1964 + 4*r.Intn(18)
+			o.StartYearMin, o.StartYearMax = ly, ly
+		}
 		p := gen.Random(r, fmt.Sprintf("bp%d", i), o)
 		for try := 0; len(p.Rotation) < 2 && try < 20; try++ { // at least one crop is grown
 			p = gen.Random(r, fmt.Sprintf("bp%d", i), o)
@@ -71,6 +76,20 @@ func makeWorkspace(c *core.Ctx, name string, nproj int, salt int64) *workspace {
 		b := p.Rotation[0].Harv
 		g.Weather.Gaps = []int{b + 40, b + 41}
 		g.WriteWeather(root)
+		// ... and one whose only hole is the last day of a leap year inside the simulated period (the 366th record);
+		// projects that do not cross such a day lose the last day of their first simulated year
+		gl := *p
+		gl.Weather.FCode = "GAPL"
+		y0 := gen.YearOfDay(b)
+		hole := gen.DayNum(y0, 12, 31)
+		for y := y0; y <= gen.YearOfDay(p.Cfg.End); y++ {
+			if gen.IsLeap(y) && gen.DayNum(y, 12, 31) > b && gen.DayNum(y, 12, 31) < p.Cfg.End {
+				hole = gen.DayNum(y, 12, 31)
+				break
+			}
+		}
+		gl.Weather.Gaps = []int{hole}
+		gl.WriteWeather(root)
 		ws.Projects = append(ws.Projects, p)
 	}
 	// a project whose tillage falls between sowing and harvest (negative test)
@@ -84,7 +103,7 @@ func makeWorkspace(c *core.Ctx, name string, nproj int, salt int64) *workspace {
 	return ws
 }
 
-var failClasses = []string{"soil-id", "field-id", "texture", "texture-deep", "fractions", "weather-gap", "tillage-in-crop", "start-year", "weather-missing"}
+var failClasses = []string{"soil-id", "field-id", "texture", "texture-deep", "fractions", "weather-gap", "tillage-in-crop", "start-year", "weather-missing", "weather-gap-yearend"}
 
 // line builds the batch line of project p with its own result folder; fail != "" turns it into a failing line.
 func (ws *workspace) line(pi int, k int, fail string) batchLine { return ws.lineVar(pi, k, fail, 0) }
@@ -132,6 +151,8 @@ func (ws *workspace) lineVar(pi int, k int, fail string, variant int) batchLine 
 		set("PTF", "1")
 	case "weather-gap":
 		set("fcode", "GAP")
+	case "weather-gap-yearend":
+		set("fcode", "GAPL")
 	case "weather-missing":
 		// the multi-year weather file of the line does not exist: the model reports it as an error of that run
 		set("fcode", "NOFILE")
@@ -462,7 +483,11 @@ func checkC11(c *core.Ctx) {
 					if class == "tillage-in-crop" {
 						lines = append(lines, ws.line(len(ws.Projects)-1, k, class))
 					} else {
-						lines = append(lines, ws.line(r.Intn(good), k, class))
+						pi := r.Intn(good)
+						if class == "weather-gap-yearend" && good > 1 {
+							pi = 1 + 2*r.Intn(good/2) // the projects that start in a leap year
+						}
+						lines = append(lines, ws.line(pi, k, class))
 					}
 				} else {
 					lines = append(lines, ws.lineRef(solo, r.Intn(good), k, r.Intn(lineVariants)))
